@@ -53,6 +53,25 @@ def main():
     driver_ok = build["targets"].get("driver", {"ok": common.DRIVER.exists()})["ok"] and common.DRIVER.exists()
     ctx.driver = common.Driver() if driver_ok else None
 
+    # ---- T3 (advisory): source fingerprints of the functions in the property's anchor files; a change escalates the
+    # quick tier to the thorough budgets (never a violation by itself)
+    try:
+        now = json.loads((common.HARNESS / "fingerprints_now.json").read_text())
+        ref = json.loads((common.HARNESS / "fingerprints.json").read_text())
+        anchors = []
+        for l in (common.VERIF / "properties.jsonl").read_text().splitlines():
+            if l.strip():
+                pj = json.loads(l)
+                if pj["id"] == prop:
+                    anchors = [a.replace("src/tola/", "") for a in pj["anchors"]["files"]]
+        changed = sorted(k for k in set(now) | set(ref) if now.get(k) != ref.get(k) and any(k.startswith(a + "::") for a in anchors))
+        if changed:
+            out.notes.append("source fingerprints changed (budget escalated to thorough): " + ", ".join(changed[:8]))
+            if not args.replay:
+                ctx.thorough = True
+    except Exception as e:
+        out.notes.append("fingerprint comparison skipped: " + repr(e))
+
     # ---- 2 audit
     aud = {"ok": True, "theorems": [], "axioms": {}, "forbidden": [], "log": "skipped (--model-only)"} if args.model_only else common.audit(prop) if prop_build_ok else {"ok": False, "theorems": [], "axioms": {}, "forbidden": [], "log": "build failed"}
     proof_ok = prop_build_ok and aud["ok"]
